@@ -39,6 +39,10 @@ Exp(r) ==
   ELSE LET t == TreeOf(L.toks) IN [skip |-> FALSE, t |-> t, d |-> d.v, o |-> Eval(t, d.v, RegOf(r))]
 
 (* how the observed outcome relates to the outcome o the specification assigns *)
+(* cases that say WHICH sub-expression's failure is the one to be reported (field span = [lo, hi) in characters): the reported position
+   lies inside it *)
+SiteOk(r) == "span" \notin DOMAIN r \/ ~("err" \in DOMAIN r.out /\ "stage" \notin DOMAIN r.out /\ r.out.err.class = "runtime")
+             \/ (r.out.err.char_offset >= r.span[1] /\ r.out.err.char_offset < r.span[2])
 Verdict(o, out) ==
   IF o.amb THEN "none"
   ELSE IF "ok" \in DOMAIN out THEN (IF IsVOk(o) /\ Matches(o.ok, out.ok) THEN "none" ELSE "value")
@@ -101,6 +105,7 @@ Why(r) ==
   ELSE IF r.e = "cmp" /\ ~SixLaws(r.out) THEN "laws"
   ELSE IF x.skip THEN "none"
   ELSE IF x.o.amb THEN LET sp == Special(x.t, x.d, r.out) IN IF sp = "na" THEN "none" ELSE sp
+  ELSE IF Verdict(x.o, r.out) = "none" /\ ~SiteOk(r) THEN "errsite"
   ELSE Verdict(x.o, r.out)
 
 (* Level 1 with deviations D reproduces the observation: same acceptance, and the meaning of the tree the parser
